@@ -154,7 +154,7 @@ def content(rng, n, style):
     return bytes(rng.randrange(256) for _ in range(n))
 
 
-NAMES = ['a.bin', 'b.txt', 'sub/c.dat', 'sub/deep/er/d', 'x y.z', '\xe9t\xe9.txt', 'sub/\xfcber', 'k|v.csv', 'e']
+NAMES = ['a.bin', 'b.txt', 'sub/c.dat', 'sub/deep/er/d', 'x y.z', '\xe9t\xe9.txt', 'sub/\xfcber', 'k|v.csv', 'e', '50%done.dat', 'notes%20final.bin', 'sub/100%s {0}.txt']
 
 
 def well_formed(mb, rates):
